@@ -336,3 +336,252 @@ def positions_as_truth(module, fn, call_gives_position):
                 found.append((t, "the result of " + " ".join(ast.unparse(t).split())[:50]))
     examined += len(pos_names)
     return found, examined
+
+
+# ---------------------------------------------------------------------------------------------------------------------------------------------
+# live values changed in passing (round 13: diagnostics, summaries and sanity checks that are not free of side effects)
+# ---------------------------------------------------------------------------------------------------------------------------------------------
+_VIEW_METHODS = {"ravel", "reshape", "view", "squeeze", "transpose", "swapaxes"}
+_VIEW_ATTRS = {"T", "values", "real", "imag", "flat"}
+_VIEW_FUNCS = {"asarray", "asanyarray", "ravel", "reshape", "squeeze", "atleast_1d", "atleast_2d", "transpose", "ascontiguousarray"}
+_REORDER_METHODS = {"sort", "reverse", "partition"}
+_ITER_MAKERS = {"iter", "zip", "map", "filter", "enumerate", "reversed", "open"}
+_ITER_METHODS = {"itertuples", "iterrows", "items", "iteritems", "finditer"}
+
+
+def _own_nodes(fn):
+    """nodes of fn outside nested function definitions"""
+    out, stack = [], list(fn.body)
+    while stack:
+        n = stack.pop()
+        if isinstance(n, (ast.FunctionDef, ast.AsyncFunctionDef, ast.Lambda, ast.ClassDef)):
+            continue
+        out.append(n)
+        stack.extend(ast.iter_child_nodes(n))
+    return out
+
+
+def _full_slice(s):
+    return isinstance(s, ast.Slice) and s.lower is None and s.upper is None and s.step is None
+
+
+def _root(e):
+    """(name, partial) of the object an expression is (a view of), or None when it is a new object"""
+    partial = False
+    while True:
+        if isinstance(e, ast.Name):
+            return e.id, partial
+        if isinstance(e, ast.Subscript):
+            idx = e.slice.elts if isinstance(e.slice, ast.Tuple) else [e.slice]
+            if any(isinstance(i, (ast.List, ast.ListComp, ast.Compare)) for i in idx):
+                return None  # fancy / boolean indexing copies
+            if not all(_full_slice(i) or (isinstance(i, ast.Constant) and i.value is Ellipsis) for i in idx):
+                partial = True
+            e = e.value
+            continue
+        if isinstance(e, ast.Attribute):
+            if e.attr not in _VIEW_ATTRS:
+                partial = True  # a field of an object: part of it
+            e = e.value
+            continue
+        if isinstance(e, ast.Call) and isinstance(e.func, ast.Attribute) and e.func.attr in _VIEW_METHODS:
+            e = e.func.value
+            continue
+        if isinstance(e, ast.Call) and isinstance(e.func, ast.Attribute) and e.func.attr in _VIEW_FUNCS and isinstance(e.func.value, ast.Name) \
+                and e.func.value.id in ("np", "numpy") and e.args and not any(k.arg == "dtype" for k in e.keywords):
+            e = e.args[0]
+            continue
+        return None
+
+
+def live_mutations(module, fn):
+    """-> (findings, undecided, examined); each entry (node, kind, text)
+       kind 'slice-reordered'   an in-place reordering (.sort() / .partition() / .reverse() / shuffle) of a PART of an array or table (one column, one
+                                row, the ravel of a slice) whose whole is used afterwards: the part is detached from the rest of each row
+            'overwrite-input'   np.median / np.percentile / ... (overwrite_input=True) on an array that is used afterwards: numpy leaves it partially sorted
+            'iterator-advanced' next() / islice() / list() / a loop over an iterator object that a later statement consumes: the later consumer starts
+                                after the elements taken here (or gets nothing)
+            'loop-rebinds'      a for-loop target that overwrites a variable of the function which is read again after the loop
+       undecided: 'reordered'   a whole list / array is reordered in place and used afterwards (whether the order mattered is not decided here)"""
+    nodes = _own_nodes(fn)
+    params = {a.arg for a in fn.args.posonlyargs + fn.args.args + fn.args.kwonlyargs}
+    loads = [(n.id, n.lineno, n) for n in nodes if isinstance(n, ast.Name) and isinstance(n.ctx, ast.Load)]
+    assigns = [n for n in nodes if isinstance(n, ast.Assign) and len(n.targets) == 1 and isinstance(n.targets[0], ast.Name)]
+    alias = {}
+    for a in sorted(assigns, key=lambda x: x.lineno):
+        r = _root(a.value)
+        t = a.targets[0].id
+        if r is not None and r[0] != t:
+            base, part = r
+            if base in alias:
+                part = part or alias[base][1]
+                base = alias[base][0]
+            alias[t] = (base, part)
+        else:
+            alias.pop(t, None)
+    loops = [n for n in nodes if isinstance(n, (ast.For, ast.While))]
+
+    def used_after(names, node, stmt_end):
+        inside = {id(x) for x in ast.walk(node)}
+        for nm, ln, nd in loads:
+            if nm in names and id(nd) not in inside and ln > stmt_end:
+                return nd
+        for lp in loops:  # a use earlier in an enclosing loop comes again
+            if lp.lineno <= node.lineno <= getattr(lp, "end_lineno", lp.lineno):
+                for nm, ln, nd in loads:
+                    if nm in names and id(nd) not in inside and lp.lineno <= ln <= getattr(lp, "end_lineno", ln):
+                        return nd
+        return None
+
+    def stmt_of(node):
+        best = None
+        for s in nodes:
+            if isinstance(s, ast.stmt) and s.lineno <= node.lineno <= getattr(s, "end_lineno", s.lineno):
+                if best is None or (s.lineno >= best.lineno and getattr(s, "end_lineno", 0) <= getattr(best, "end_lineno", 0)):
+                    best = s
+        return best
+
+    def family(name):
+        base = alias.get(name, (name, False))[0]
+        return {base} | {k for k, v in alias.items() if v[0] == base} | {name}
+
+    findings, undecided, examined = [], [], 0
+    for c in nodes:
+        if not isinstance(c, ast.Call):
+            continue
+        st = stmt_of(c)
+        end = getattr(st, "end_lineno", c.lineno) if st is not None else c.lineno
+        # (1) in-place reordering
+        target = None
+        if isinstance(c.func, ast.Attribute) and c.func.attr in _REORDER_METHODS and not (c.func.attr == "partition" and isinstance(c.func.value, ast.Constant)) \
+                and not (isinstance(c.func.value, ast.Name) and c.func.value.id in ("np", "numpy", "pd", "pandas", "random", "str")):
+            target = c.func.value
+        elif isinstance(c.func, ast.Attribute) and c.func.attr == "shuffle" and c.args:
+            target = c.args[0]
+        if target is not None:
+            examined += 1
+            r = _root(target)
+            if r is not None:
+                name, part = r
+                if name in alias:
+                    part = part or alias[name][1]
+                fam = family(name)
+                if part:
+                    others = fam - ({name} if isinstance(target, ast.Name) else set())
+                    u = used_after(others, c, end)
+                    base = alias.get(name, (name, False))[0]
+                    if u is not None or base in params:
+                        findings.append((c, "slice-reordered", f"`{_txt(target)}` is a part of `{base}` (a column / slice, not a copy) and is reordered in place: "
+                                         f"its values are detached from the rest of their rows, and `{base}` is used afterwards"
+                                         + (f" (line {u.lineno})" if u is not None else " (it is the caller's array)")))
+                        continue
+                u = used_after(fam, c, end)
+                if u is not None and name not in params:
+                    undecided.append((c, "reordered", f"`{_txt(target)}` is reordered in place and used afterwards (line {u.lineno})"))
+        # (2) overwrite_input=True
+        ow = [k for k in c.keywords if k.arg == "overwrite_input" and isinstance(k.value, ast.Constant) and k.value.value is True]
+        if ow and c.args:
+            examined += 1
+            r = _root(c.args[0])
+            if r is not None:
+                fam = family(r[0])
+                u = used_after(fam, c, end)
+                rets = [n for n in nodes if isinstance(n, ast.Return) and n.value is not None and any(isinstance(x, ast.Name) and x.id in fam for x in ast.walk(n.value))]
+                base = alias.get(r[0], (r[0], False))[0]
+                if u is not None or rets or base in params:
+                    findings.append((c, "overwrite-input", f"`{_txt(c.func)}(..., overwrite_input=True)` leaves `{_txt(c.args[0])}` partially sorted, and `{base}` is "
+                                     "used afterwards: its entries no longer stand where they belonged"))
+    # (3) iterator objects consumed twice
+    for a in assigns:
+        v = a.value
+        is_iter = isinstance(v, ast.GeneratorExp) or (isinstance(v, ast.Call) and (
+            (isinstance(v.func, ast.Name) and v.func.id in _ITER_MAKERS) or (isinstance(v.func, ast.Attribute) and v.func.attr in _ITER_METHODS and v.func.attr not in ("items",))))
+        if not is_iter:
+            continue
+        name = a.targets[0].id
+        if sum(1 for b in assigns if b.targets[0].id == name) != 1:
+            continue
+        examined += 1
+        uses = sorted([(ln, nd) for nm, ln, nd in loads if nm == name and ln > a.lineno], key=lambda x: x[0])
+        if len(uses) < 2:
+            continue
+        first_ln, first = uses[0]
+        # how is the first use consuming?  next(it) / islice(it, ..) / list(it) / for .. in it
+        par = [p for p in nodes if any(ch is first for ch in ast.iter_child_nodes(p))]
+        p0 = par[0] if par else None
+        consuming = isinstance(p0, ast.Call) and ((isinstance(p0.func, ast.Name) and p0.func.id in ("next", "list", "tuple", "sorted", "sum", "max", "min", "len", "any", "all"))
+                                                   or (isinstance(p0.func, ast.Attribute) and p0.func.attr in ("islice", "takewhile", "dropwhile")))
+        consuming = consuming or (isinstance(p0, ast.For) and p0.iter is first) or (isinstance(p0, ast.comprehension) and p0.iter is first)
+        chained = any(isinstance(n, ast.Call) and isinstance(n.func, ast.Attribute) and n.func.attr == "chain" for n in nodes)
+        if consuming and not chained:
+            findings.append((first, "iterator-advanced", f"`{name}` is an iterator ({_txt(v)[:50]}): line {first_ln} takes elements from it, and line {uses[1][0]} "
+                             "consumes the same object afterwards -- the elements taken first never reach the later consumer"))
+    # (4) a loop target that overwrites a live variable
+    for lp in nodes:
+        if not isinstance(lp, ast.For):
+            continue
+        tgts = [t for t in ast.walk(lp.target) if isinstance(t, ast.Name)]
+        for t in tgts:
+            examined += 1
+            defs_before = [n for n in nodes if isinstance(n, ast.Name) and isinstance(n.ctx, ast.Store) and n.id == t.id and n.lineno < lp.lineno
+                           and not any(isinstance(l2, ast.For) and any(x is n for x in ast.walk(l2.target)) for l2 in nodes)]
+            if not defs_before and t.id not in params:
+                continue
+            end = getattr(lp, "end_lineno", lp.lineno)
+            later_defs = [n.lineno for n in nodes if isinstance(n, ast.Name) and isinstance(n.ctx, ast.Store) and n.id == t.id and n.lineno > end]
+            reads_after = [nd for nm, ln, nd in loads if nm == t.id and ln > end and not any(d <= ln for d in later_defs)]
+            reads_before = [nd for nm, ln, nd in loads if nm == t.id and (max(n.lineno for n in defs_before) if defs_before else 0) <= ln < lp.lineno]
+            in_outer_loop = any(isinstance(o, (ast.For, ast.While)) and o is not lp and o.lineno < lp.lineno and getattr(o, "end_lineno", 0) >= end for o in nodes)
+            if reads_after and (reads_before or t.id in params) and not in_outer_loop:
+                findings.append((lp, "loop-rebinds", f"the loop target `{t.id}` overwrites the variable `{t.id}` of this function (defined at line "
+                                 f"{defs_before[-1].lineno if defs_before else fn.lineno}), which is read again after the loop (line {reads_after[0].lineno}): "
+                                 "after the loop it holds the loop's last element"))
+    # (5) a parameter cut down to a fixed number of its elements and used afterwards
+    for a in assigns:
+        t = a.targets[0].id
+        v = a.value
+        if t in params and isinstance(v, ast.Subscript) and isinstance(v.value, ast.Name) and v.value.id == t and isinstance(v.slice, ast.Slice) \
+                and any(isinstance(b, ast.Constant) and isinstance(b.value, int) and b.value != 0 for b in (v.slice.lower, v.slice.upper)):
+            examined += 1
+            u = used_after({t}, a, getattr(a, "end_lineno", a.lineno))
+            if u is not None:
+                findings.append((a, "parameter-truncated", f"the parameter `{t}` is rebound to `{_txt(v)}` and used afterwards (line {u.lineno}): for a longer "
+                                 "input the remaining elements never reach the code that follows"))
+    # (6) in-place arithmetic through a flattened / reshaped view of an array that is used afterwards
+    for n in nodes:
+        if isinstance(n, ast.AugAssign) and isinstance(n.target, ast.Name) and n.target.id in alias:
+            d = [a for a in assigns if a.targets[0].id == n.target.id and a.lineno < n.lineno]
+            if d and isinstance(d[-1].value, ast.Call) and isinstance(d[-1].value.func, ast.Attribute) and d[-1].value.func.attr in ("ravel", "reshape", "view"):
+                examined += 1
+                base = alias[n.target.id][0]
+                u = used_after(family(n.target.id) - {n.target.id}, n, getattr(n, "end_lineno", n.lineno))
+                if u is not None or base in params:
+                    undecided.append((n, "view-updated", f"`{_txt(n)}` works on `{_txt(d[-1].value)}`, which is a view of `{base}` whenever no copy is needed: `{base}` "
+                                      "changes with it and is used afterwards"))
+    return findings, undecided, examined
+
+
+def mutating_params(fn):
+    """names of parameters of fn that its own body updates in place (p.sort(), p[..] = .., p op= .., ufunc(.., out=p), p.append ..): direct sites only"""
+    params = [a.arg for a in fn.args.posonlyargs + fn.args.args + fn.args.kwonlyargs]
+    out = {}
+    nodes = _own_nodes(fn)
+    rebound = {n.id for n in nodes if isinstance(n, ast.Name) and isinstance(n.ctx, ast.Store)}
+    for n in nodes:
+        tgt = None
+        if isinstance(n, ast.Call) and isinstance(n.func, ast.Attribute) and isinstance(n.func.value, ast.Name) \
+                and n.func.attr in ("sort", "reverse", "partition", "fill", "append", "extend", "insert", "pop", "remove", "clear", "put", "resize", "update"):
+            tgt, how = n.func.value.id, "." + n.func.attr + "()"
+        elif isinstance(n, ast.Call):
+            for k in n.keywords:
+                if k.arg == "out" and isinstance(k.value, ast.Name):
+                    tgt, how = k.value.id, "out="
+        elif isinstance(n, ast.AugAssign) and isinstance(n.target, ast.Name):
+            tgt, how = n.target.id, "augmented assignment"
+        elif isinstance(n, (ast.Assign, ast.AugAssign)):
+            for t in (n.targets if isinstance(n, ast.Assign) else [n.target]):
+                if isinstance(t, ast.Subscript) and isinstance(t.value, ast.Name):
+                    tgt, how = t.value.id, "element store"
+        if tgt in params and (tgt not in rebound or how != "augmented assignment"):
+            out.setdefault(tgt, how)
+    return out
